@@ -125,6 +125,28 @@ def guard_family():
 
 INPUTS = {"<t>", "<dt>", "<state>y", W}
 
+
+def grammar_programs(chk):
+    """Every well-formed statement shape of specs/StmtGen.tla (kind x rhs form x assignee form x loop nest x guard x
+    keyword form x time form), instantiated as in harness/c08.py, between a prelude that defines what it reads and
+    yields that make its effect visible."""
+    from . import c08
+    res = tlc.run_tlc("StmtGen", workers=1, timeout=600)
+    chk.add_tlc(res)
+    pre = [assign("a", C(1)), assign("b", C(4)), assign("n", C(1)), assign("m", C(2)), assign("<p>q", C(1)),
+           assign("arr", CALL("<builtin>array", [C(5)])), assign("arr", S(V("i"), C(1)), sub=[V("i")], loops=[["i", C(0), C(5)]]),
+           assign("<p>v", CALL("<builtin>array", [C(5)])), assign("<p>v", P(V("i"), C(2)), sub=[V("i")], loops=[["i", C(0), C(5)]])]
+    post = [yield_(V("a"), comp="a"), yield_(SUB("arr", C(1)), comp="arr1"), yield_(SUB("arr", C(3)), comp="arr3"),
+            yield_(S(V("b"), SUB("<p>v", C(1))), comp="bv")]
+    out = []
+    for sh in res.json_lines("GEN"):
+        if sh["kind"] in ("fail", "switch") and sh["guard"] == "none":
+            continue
+        out.append(pre + c08.shape_calls(sh) + post)
+    if len(out) < 1000:
+        raise tlc.MachineryError("StmtGen produced %d programs" % len(out))
+    return out
+
 P1_CALLS = [assign("<state>y", S(Y, C(-1))), yield_(Y, comp="y", tid="p1")]
 
 
@@ -226,6 +248,10 @@ def run(chk):
         nxt = rng.choice(["p0", "p0", "p1"])
         for inp, bound in inputs(rng, 2):
             jobs.append((make_method(calls, p1=p1, next0=nxt), inp, bound))
+    gram = grammar_programs(chk)
+    for calls in (rng.sample(gram, 800) if chk.quick else gram):
+        for inp, bound in inputs(rng, 1):
+            jobs.append((make_method(calls), inp, bound))
     for calls in guard_family():
         for inp, bound in inputs(rng, 4 if chk.quick else 30):
             jobs.append((make_method(calls), inp, bound))
